@@ -9,6 +9,8 @@ ids=$(/venv/bin/python -c "import json;print(' '.join(c['property_id'] for c in 
 cd lean || exit 2
 for id in $ids; do
   lc=$(echo "$id" | tr 'A-Z' 'a-z')
-  flock ../.locks/lake.lock lake build "drv_$lc" "PyroProps.$id" 2>&1 | grep -v 'conda.cli' | tail -n 3
+  extra=""
+  [ -f "PyroProps/${id}Ast.lean" ] && extra="PyroProps.${id}Ast"     # theorems about the transcribed source (C17)
+  flock ../.locks/lake.lock lake build "drv_$lc" "PyroProps.$id" $extra 2>&1 | grep -v 'conda.cli' | tail -n 3
 done
 exit 0
